@@ -25,6 +25,9 @@ fn pool() -> Vec<RMap> {
         RMap { contents: vec![Some("OTHER-A".into()), Some("OTHER-B".into())], ..m(&["a", "b"], vec![RTok::new(0, 1, Some((1, 3, 3, None))), RTok::new(0, 2, Some((0, 4, 4, Some(1))))]) },
         // a source that other pool maps carry with contents, here only ignore-listed
         RMap { ignore: vec![0], ..m(&["a"], vec![RTok::new(0, 0, Some((0, 8, 8, None))), RTok::new(1, 1, Some((0, 9, 0, None)))]) },
+        // nothing on the map's first line (the column offset applies to line 0 of the section, not to
+        // the line of its first token)
+        m(&["a"], vec![RTok::new(1, 2, Some((0, 3, 3, None))), RTok::new(1, 6, Some((0, 3, 7, Some(0))))]),
         // an ignore-listed source without any token (its flag must not land on another source)
         RMap { ignore: vec![0], ..m(&["unused", "b"], vec![RTok::new(0, 1, Some((1, 7, 7, None)))]) },
     ]
@@ -355,7 +358,7 @@ pub fn run(run: &mut Run) -> Finish {
         let combos = np.pow(n as u32);
         // special variants: none, or one slot replaced by {nested index, Hermes, url-only}
         let specials = 1 + 3 * n as u64;
-        run.par_slice(&format!("{n} section(s): every strictly increasing offset choice over 6 offsets x every assignment of the 11-map pool x {{plain, one slot nested index / Hermes / url-only}}, constructed and decoded, query grid around every offset"), slice_no, no * combos * specials, |idx, l| {
+        run.par_slice(&format!("{n} section(s): every strictly increasing offset choice over 6 offsets x every assignment of the 12-map pool x {{plain, one slot nested index / Hermes / url-only}}, constructed and decoded, query grid around every offset"), slice_no, no * combos * specials, |idx, l| {
             let k = idx & ((1 << 40) - 1);
             let d = mixed_radix(k, &[specials, combos, no]);
             let picks = seq_of(d[1], np, n);
